@@ -68,7 +68,7 @@ func (BadReturns) Two() (int, int) { return 1, 2 }
 // further receivers, each with one return layout outside (T), (error), (T, error)
 type BadReturns3 struct{}
 
-func (BadReturns3) Fine() error                 { return nil }
+func (BadReturns3) Fine() error                  { return nil }
 func (BadReturns3) Triple() (int, string, error) { return 1, "x", nil }
 
 type BadReturnsErrFirst struct{}
@@ -82,9 +82,9 @@ func (BadReturns4) Four() (int, int, int, error) { return 1, 2, 3, nil }
 // GoodReturns: every supported layout (the control)
 type GoodReturns struct{}
 
-func (GoodReturns) One() int             { return 1 }
-func (GoodReturns) Err() error           { return nil }
-func (GoodReturns) Both() (int, error)   { return 1, nil }
+func (GoodReturns) One() int           { return 1 }
+func (GoodReturns) Err() error         { return nil }
+func (GoodReturns) Both() (int, error) { return 1, nil }
 
 type jk struct {
 	coq  string
@@ -514,5 +514,10 @@ func runC16(ctx *Ctx) {
 	}
 	if ctx.Want(n + 10) {
 		c16Binary(ctx, n+10)
+	}
+	for c := 0; c < ctx.N(2, 20); c++ {
+		if ctx.Want(n + 50 + c) {
+			c16HTTPBodies(ctx, n+50+c, ctx.Sub(n+50+c))
+		}
 	}
 }
